@@ -1729,6 +1729,7 @@ func (l *Loader) prepareEntityFetch(fetchItem *FetchItem, fetch *EntityFetch, it
 			rendered[:responseCacheHeaderEnd],
 			rendered[responseCacheFooterStart:],
 			undefinedVariables,
+			l.ctx.Extensions,
 		)
 		responseCacheItemHash := xxhash.Sum64(renderedItem)
 		prepared.responseCacheKeys = []string{caching.Key(responseCacheItemHash, selectionHash)}
@@ -1924,6 +1925,7 @@ WithNextItem:
 			rendered[:responseCacheHeaderEnd],
 			rendered[responseCacheFooterStart:],
 			undefinedVariables,
+			l.ctx.Extensions,
 		)
 		prepared.responseCacheKeys = make([]string, len(responseCacheItemHashes))
 		for i, itemHash := range responseCacheItemHashes {
